@@ -274,6 +274,90 @@ func catalogue() []corruption {
 			}
 			return false
 		}},
+		{"proposer-slashing/pre-fork-headers-under-current-version", true, func(s *sim, r *blockRefs, pre *stateBox) bool {
+			// conflicting headers of a slot BEFORE the state's last fork, signed under the version in
+			// force now: the domain of a header is that of its own epoch, so the signatures are invalid
+			// (and the mirror image, for attester slashings, below)
+			if uint64(len(*r.ps)) >= uint64(s.w.spec.MAX_PROPOSER_SLASHINGS) {
+				return false
+			}
+			f, _ := pre.st.Fork()
+			epoch := s.w.epochOf(uint64(*r.slot))
+			if f.Epoch == 0 || uint64(f.Epoch) > epoch || f.PreviousVersion == f.CurrentVersion || uint64(f.Epoch) <= s.cfg.StartEpoch {
+				return false
+			}
+			he := uint64(f.Epoch) - 1
+			vals, _ := pre.st.Validators()
+			n, _ := vals.ValidatorCount()
+			for v := uint64(0); v < n; v++ {
+				val, _ := vals.Validator(common.ValidatorIndex(v))
+				wd, _ := val.WithdrawableEpoch()
+				ac, _ := val.ActivationEpoch()
+				sl, _ := val.Slashed()
+				ki := s.w.keyOf(pre.st, common.ValidatorIndex(v))
+				if sl || uint64(ac) > epoch || uint64(wd) <= epoch || ki < 0 || common.ValidatorIndex(v) == *r.proposer {
+					continue
+				}
+				busy := false
+				for _, x := range *r.ps {
+					busy = busy || x.SignedHeader1.Message.ProposerIndex == common.ValidatorIndex(v)
+				}
+				for _, x := range *r.as {
+					for _, i := range x.Attestation1.AttestingIndices {
+						busy = busy || i == common.ValidatorIndex(v)
+					}
+				}
+				if busy {
+					continue
+				}
+				mk := func(tag uint64) common.SignedBeaconBlockHeader {
+					h := common.BeaconBlockHeader{Slot: common.Slot(he * s.cfg.SPE), ProposerIndex: common.ValidatorIndex(v), ParentRoot: fnvRoot("pfh", tag)}
+					dom := computeDomain(common.DOMAIN_BEACON_PROPOSER, f.CurrentVersion, s.w.gvr)
+					return common.SignedBeaconBlockHeader{Message: h, Signature: s.w.keys.sign(ki, signingRoot(h.HashTreeRoot(tree.GetHashFn()), dom))}
+				}
+				*r.ps = append(append(phase0.ProposerSlashings(nil), *r.ps...), phase0.ProposerSlashing{SignedHeader1: mk(1), SignedHeader2: mk(2)})
+				return true
+			}
+			return false
+		}},
+		{"attester-slashing/pre-fork-votes-under-current-version", true, func(s *sim, r *blockRefs, pre *stateBox) bool {
+			if uint64(len(*r.as)) >= uint64(s.w.spec.MAX_ATTESTER_SLASHINGS) {
+				return false
+			}
+			f, _ := pre.st.Fork()
+			epoch := s.w.epochOf(uint64(*r.slot))
+			if f.Epoch == 0 || uint64(f.Epoch) > epoch || f.PreviousVersion == f.CurrentVersion || uint64(f.Epoch) <= s.cfg.StartEpoch {
+				return false
+			}
+			he := uint64(f.Epoch) - 1
+			vals, _ := pre.st.Validators()
+			n, _ := vals.ValidatorCount()
+			for v := uint64(0); v < n; v++ {
+				val, _ := vals.Validator(common.ValidatorIndex(v))
+				wd, _ := val.WithdrawableEpoch()
+				ac, _ := val.ActivationEpoch()
+				sl, _ := val.Slashed()
+				ki := s.w.keyOf(pre.st, common.ValidatorIndex(v))
+				if sl || uint64(ac) > epoch || uint64(wd) <= epoch || ki < 0 || common.ValidatorIndex(v) == *r.proposer {
+					continue
+				}
+				busy := false
+				for _, x := range *r.ps {
+					busy = busy || x.SignedHeader1.Message.ProposerIndex == common.ValidatorIndex(v)
+				}
+				if busy {
+					continue
+				}
+				mk := func(tag uint64) phase0.IndexedAttestation {
+					d := phase0.AttestationData{Slot: common.Slot(he * s.cfg.SPE), BeaconBlockRoot: fnvRoot("pfa", tag), Target: common.Checkpoint{Epoch: common.Epoch(he), Root: fnvRoot("pfa-t", tag)}}
+					dom := computeDomain(common.DOMAIN_BEACON_ATTESTER, f.CurrentVersion, s.w.gvr)
+					return phase0.IndexedAttestation{AttestingIndices: common.CommitteeIndices{common.ValidatorIndex(v)}, Data: d, Signature: s.w.keys.signAgg([]int{ki}, signingRoot(d.HashTreeRoot(tree.GetHashFn()), dom))}
+				}
+				*r.as = append(append(phase0.AttesterSlashings(nil), *r.as...), phase0.AttesterSlashing{Attestation1: mk(1), Attestation2: mk(2)})
+				return true
+			}
+			return false
+		}},
 		{"attester-slashing/of-withdrawable-validator", true, func(s *sim, r *blockRefs, pre *stateBox) bool {
 			if uint64(len(*r.as)) >= uint64(s.w.spec.MAX_ATTESTER_SLASHINGS) {
 				return false
@@ -676,7 +760,7 @@ func (s *sim) byzantine(parent *blockRec, blk *blockRec) {
 	// rare-state corruptions are tried first whenever the state allows them
 	var rare []corruption
 	for _, c := range cat {
-		if strings.HasSuffix(c.name, "of-withdrawable-validator") || c.name == "exit/too-young" {
+		if strings.HasSuffix(c.name, "of-withdrawable-validator") || c.name == "exit/too-young" || strings.HasSuffix(c.name, "under-current-version") {
 			rare = append(rare, c)
 		}
 	}
